@@ -3,6 +3,7 @@
 use std::io::Read;
 use std::ops::Range;
 
+use pgp::crypto::hash::HashAlgorithm;
 use pgp::composed::{CleartextSignedMessage, Deserializable, DetachedSignature, Message, SignedPublicKey, SignedSecretKey};
 use pgp::packet::{Packet, PacketParser, PublicKey, Signature, SignatureConfig, SignatureType, Subpacket, SubpacketData, UserId};
 use pgp::ser::Serialize;
@@ -261,30 +262,10 @@ fn wrong_keys(t: &mut Tape, kind: Kind) -> Vec<(PublicKey, String)> {
     out
 }
 
-fn data_case(t: &mut Tape, rec: &mut Rec, kinds: &[Kind]) -> CaseResult {
-    let kind = *t.pick(kinds);
+fn sign_data(t: &mut Tape, kind: Kind, text: bool, hash: HashAlgorithm, via: usize, data: &[u8]) -> Result<Signature, Fail> {
     let z = zoo::get(kind);
     let key = &z.secret.primary_key;
-    let pubk = &z.public.primary_key;
-    let text = t.bool();
-    let hash = *t.pick(kind.hashes());
-    let n = match t.below(4) {
-        0 => t.below(3),
-        1 => 512 * t.range(1, 3) + t.below(5) - 2,
-        _ => t.range(1, 300),
-    };
-    let mut data = expand(t.u64(), n);
-    if text {
-        for b in data.iter_mut() {
-            *b = match *b % 20 {
-                0 => b'\n',
-                1 => b'\r',
-                x => b'a' + x,
-            };
-        }
-    }
     let mut rng = ChaCha8Rng::from_seed(t.seed32());
-    let via = t.below(3);
     let sig: Signature = match via {
         0 => {
             let d = if text { DetachedSignature::sign_text_data(&mut rng, key, &Password::empty(), hash, &data[..]) } else { DetachedSignature::sign_binary_data(&mut rng, key, &Password::empty(), hash, &data[..]) };
@@ -316,6 +297,33 @@ fn data_case(t: &mut Tape, rec: &mut Rec, kinds: &[Kind]) -> CaseResult {
             cfg.sign(key, &Password::empty(), &data[..]).map_err(|e| f("C02:sign-error", e.to_string()))?
         }
     };
+    Ok(sig)
+}
+
+fn data_case(t: &mut Tape, rec: &mut Rec, kinds: &[Kind]) -> CaseResult {
+    let kind = *t.pick(kinds);
+    let z = zoo::get(kind);
+    let key = &z.secret.primary_key;
+    let pubk = &z.public.primary_key;
+    let text = t.bool();
+    let hash = *t.pick(kind.hashes());
+    let n = match t.below(4) {
+        0 => t.below(3),
+        1 => 512 * t.range(1, 3) + t.below(5) - 2,
+        _ => t.range(1, 300),
+    };
+    let mut data = expand(t.u64(), n);
+    if text {
+        for b in data.iter_mut() {
+            *b = match *b % 20 {
+                0 => b'\n',
+                1 => b'\r',
+                x => b'a' + x,
+            };
+        }
+    }
+    let via = t.below(3);
+    let sig = sign_data(t, kind, text, hash, via, &data)?;
     rec.label(format!("data:{}:{}", ["detached", "one-pass", "config"][via], if text { "text" } else { "binary" }));
     rec.label(format!("key:{kind:?}"));
     // positive control
@@ -384,6 +392,89 @@ fn data_case(t: &mut Tape, rec: &mut Rec, kinds: &[Kind]) -> CaseResult {
                 }
             }
         }
+    }
+    Ok(())
+}
+
+/// text signatures whose content length sits on the 512-byte blocks of the line-ending
+/// normalizers, with every small line-ending edit at the very end (enumerated, not drawn)
+const EDGE_KS: [usize; 4] = [1, 2, 3, 8];
+const EDGE_DELTAS: [isize; 4] = [-2, -1, 0, 1];
+const EDGE_ENDINGS: [&[u8]; 4] = [b"ab", b"a\r", b"a\n", b"\r\n"];
+const EDGE_EDITS: usize = 7;
+const EDGE_KINDS: [Kind; 2] = [Kind::Ed25519V4, Kind::Ed25519V6];
+
+fn edge_count() -> u64 {
+    (EDGE_KS.len() * EDGE_DELTAS.len() * EDGE_ENDINGS.len() * EDGE_EDITS * 3 * EDGE_KINDS.len()) as u64
+}
+
+fn edge_case(t: &mut Tape, rec: &mut Rec) -> CaseResult {
+    let mut i = t.u64() as usize;
+    let mut take = |n: usize| {
+        let r = i % n;
+        i /= n;
+        r
+    };
+    let edit = take(EDGE_EDITS);
+    let ending = EDGE_ENDINGS[take(EDGE_ENDINGS.len())];
+    let delta = EDGE_DELTAS[take(EDGE_DELTAS.len())];
+    let k = EDGE_KS[take(EDGE_KS.len())];
+    let via = take(3);
+    let kind = EDGE_KINDS[take(EDGE_KINDS.len())];
+    let n = (512 * k) as isize + delta;
+    let n = n as usize;
+    let mut data: Vec<u8> = (0..n).map(|j| if j % 61 == 60 { b'\n' } else { b'a' + (j % 23) as u8 }).collect();
+    data[n - ending.len()..].copy_from_slice(ending);
+    let z = zoo::get(kind);
+    let hash = kind.hashes()[0];
+    let sub = expand(i as u64 ^ 0xED6E, 80);
+    let mut t2 = Tape::new(&sub);
+    let sig = sign_data(&mut t2, kind, true, hash, via, &data)?;
+    let accepted = data_verifiers(&sig, &z.public.primary_key, &z.public, &data, 0);
+    if accepted.len() < 5 {
+        return fail("C02:positive-control-failed", format!("unperturbed text signature over {n} bytes ending {ending:?} accepted only by {accepted:?} ({kind:?} via {via})"));
+    }
+    let mut d2 = data.clone();
+    let what = match edit {
+        0 => {
+            d2.push(b'\r');
+            "CR appended"
+        }
+        1 => {
+            d2.push(b'\n');
+            "LF appended"
+        }
+        2 => {
+            d2.extend_from_slice(b"\r\n");
+            "CR LF appended"
+        }
+        3 => {
+            d2.pop();
+            "last byte removed"
+        }
+        4 => {
+            d2[n - 1] = b'\r';
+            "last byte replaced by CR"
+        }
+        5 => {
+            d2.insert(n - 1, b'\r');
+            "CR inserted before the last byte"
+        }
+        _ => {
+            d2.truncate(n - 2);
+            "last two bytes removed"
+        }
+    };
+    rec.label(format!("edge:{what}"));
+    if same_text_semantics(&d2, &data, true) {
+        rec.label("trivial:same-canonical-text");
+        return Ok(());
+    }
+    rec.nontrivial((format!("{kind:?}"), via, n, ending, edit));
+    rec.describe(|| format!("{kind:?} text signature (via {}) over {n} bytes ending in {:?}; {what}", ["detached", "one-pass", "config"][via], String::from_utf8_lossy(ending)));
+    let acc = data_verifiers(&sig, &z.public.primary_key, &z.public, &d2, 1);
+    if !acc.is_empty() {
+        return fail("C02:signature-verifies-over-different-content", format!("{what}: accepted by {acc:?} ({kind:?}, text mode, {n} bytes ending in {:?})", String::from_utf8_lossy(ending)));
     }
     Ok(())
 }
@@ -651,6 +742,7 @@ pub fn run(ctx: &Ctx) {
     let n = ctx.tier.pick(800u64, 20_000);
     ctx.group("data-signatures-all-algorithms", Source::Random { n, tape_len: 200 }, |t, rec| data_case(t, rec, zoo::ALL_SIGNERS));
     let n = ctx.tier.pick(4_000u64, 80_000);
+    ctx.group("text-signatures-at-normalizer-block-edges", Source::Indexed { count: edge_count() }, edge_case);
     ctx.group("cleartext", Source::Random { n, tape_len: 120 }, cleartext_case);
     ctx.group("certificate-signatures", Source::Random { n, tape_len: 160 }, cert_sig_case);
     let n = ctx.tier.pick(6_000u64, 150_000);
